@@ -166,3 +166,38 @@ Proof.
   intros HD R1 R2. apply outcome_independent_of_runs. unfold key_tree. rewrite !flat_emap. f_equal.
   exact (redundant_brackets HD R1 R2).
 Qed.
+
+(* ---- exactly where the grouping inside a run decides about validity: rotating (a op b) op c into a op (b op c) keeps a valid tree valid unless
+   op is O or X and b, c are a single hint and a single format constraint (in either order) -- then, and only then, it becomes invalid *)
+Definition hint_fc_pair (x y : kexpr) : bool := (hint_leaf x && fc_leaf y) || (fc_leaf x && hint_leaf y).
+
+Lemma leaf_pair_no_rc x y : hint_fc_pair x y = true -> carries_rc x = false /\ carries_rc y = false.
+Proof.
+  unfold hint_fc_pair, hint_leaf, fc_leaf, leaf_is. intros H.
+  destruct x as [kx|], y as [ky|]; cbn [carries_rc] in *; try (rewrite ?andb_false_r in H; discriminate).
+  unfold is_kind in *. destruct (kind_of kx) as [[]|], (kind_of ky) as [[]|]; cbn in H; try discriminate; split; reflexivity.
+Qed.
+
+Theorem rotation_validity b x y z : b = BOr \/ b = BXor -> valid (EBin b (EBin b x y) z) = true ->
+  valid (EBin b x (EBin b y z)) = negb (hint_fc_pair y z).
+Proof.
+  intros Hb V.
+  assert (V' : valid x = true /\ valid y = true /\ valid z = true /\ or_xor_ok x y = true /\ or_xor_ok (EBin b x y) z = true).
+  { destruct Hb; subst b; cbn [valid] in V; repeat (apply andb_true_iff in V; destruct V as [V ?]); repeat split; assumption. }
+  destruct V' as (Vx & Vy & Vz & Oxy & Oxyz).
+  unfold or_xor_ok in Oxy, Oxyz. apply andb_true_iff in Oxy. destruct Oxy as [_ Cxy]. apply andb_true_iff in Oxyz. destruct Oxyz as [_ Cxyz].
+  apply eqb_prop in Cxy. apply eqb_prop in Cxyz. cbn [carries_rc] in Cxyz. rewrite <- Cxy, orb_diag in Cxyz.
+  assert (E : valid (EBin b x (EBin b y z)) = or_xor_ok y z && or_xor_ok x (EBin b y z)).
+  { destruct Hb; subst b; cbn [valid]; rewrite Vx, Vy, Vz; cbn [andb]; reflexivity. }
+  rewrite E. unfold or_xor_ok. cbn [carries_rc hint_leaf fc_leaf leaf_is]. fold (hint_leaf y) (fc_leaf y) (hint_leaf z) (fc_leaf z).
+  rewrite <- Cxy, <- Cxyz, orb_diag, !eqb_reflx, !andb_false_r, !andb_true_r. cbn [orb negb andb]. unfold hint_fc_pair. reflexivity.
+Qed.
+
+Theorem rotation_validity_and x y z : valid (EBin BAnd (EBin BAnd x y) z) = valid (EBin BAnd x (EBin BAnd y z)).
+Proof. cbn [valid]. now rewrite andb_assoc. Qed.
+
+(* and when the rotation stays valid, nothing observable changes (C05_outcome_independent_of_run_grouping applies: same flattening) *)
+Lemma rotation_same_flat b (x y z : kexpr) : b <> BThen -> flat (EBin b (EBin b x y) z) = flat (EBin b x (EBin b y z)).
+Proof.
+  intros Hb. cbn [flat explode]. destruct b; try congruence; cbn [binop_eqb]; now rewrite app_assoc.
+Qed.
